@@ -24,6 +24,8 @@ def run(ctx):
     leaf_name_ownership(ctx, cg, ef)
     attach_after_occurrence_check(ctx, cg)
     ordtab.check_occurrence_tables(ctx)
+    from ..rules import reqtab
+    reqtab.check_requirement_tables(ctx)
 
 
 # ---------------------------------------------------------------------------------------------- a
